@@ -154,7 +154,7 @@ def mut_cases(mut_res, gram, tier, rng, cov):
         if len(singles) != n + n + n * (n - 1) // 2 + n:
             core.die("Mutate.tla: %d single edits for n=%d" % (len(singles), n))
     cov["edit_scripts"] = len(mut_res.printed)
-    nseeds, per_seed = (40, 150) if tier == "quick" else (160, 260)
+    nseeds, per_seed = (12, 110) if tier == "quick" else (160, 260)
     cands = [(c, toks) for c, toks in gram if 3 <= len(toks) <= max(by_n)]
     cands.sort(key=lambda ct: ct[0].data)
     rng.shuffle(cands)
@@ -183,13 +183,17 @@ def lit_cases(tier, rng):
         # the families are enumerated completely except the big escape product and the nesting depths
         keep = []
         for f, name, data in fam:
-            if f == "esc2" and rng.random() > 0.35:
+            if f in ("esc2", "escdoc", "esc1") and rng.random() > 0.15:
                 continue
-            if f == "nest" and not re.search(r"-(30|90|199)$", name):
+            if f == "nest" and not (re.search(r"-(90)$", name) or re.match(r"(lambda|paren|add)-(30|199)$", name)):
                 continue
             if f in ("bigint", "bigfloat") and not re.search(r"-(19|40|4300|4301|5000)$", name):
                 continue
             if f == "constfold" and name.startswith("ret "):
+                continue
+            if f == "layout" and rng.random() > 0.5:
+                continue
+            if f == "constfold" and rng.random() > 0.3 and "9 ** 9" not in name:
                 continue
             keep.append((f, name, data))
         fam = keep
@@ -207,7 +211,7 @@ def corpus_cases(tier, rng):
     if tier == "quick":
         small = [f for f in files if os.path.getsize(f) <= 30000]
         small.sort()
-        files = core.sample(small, 10, rng)
+        files = core.sample(small, 3, rng)
     out = []
     for f in files:
         with open(f, "rb") as fh:
@@ -311,9 +315,10 @@ def obs_detail(case, rec, why):
 
 
 def pick_cc(cases, recs, tier, rng):
+    tier = tier
     """generated C files to hand to the C compiler: a cover of the grammar alternatives + samples of the other families"""
     gen = [c for c in cases if c.id in recs and "died" not in recs[c.id] and recs[c.id]["final"]["cfile"] and recs[c.id].get("c_file")]
-    budget = 260 if tier == "quick" else 700
+    budget = 90 if tier == "quick" else 700
     chosen, covered = [], set()
     g = [c for c in gen if c.family == "gram"]
     g.sort(key=lambda c: c.data)
@@ -322,7 +327,7 @@ def pick_cc(cases, recs, tier, rng):
     for want in (2, 1):
         for c in g:
             u = set(c.desc["used"].split("+"))
-            if len(u - covered) >= want and len(chosen) < budget * 2:
+            if len(u - covered) >= want and len(chosen) < (budget if tier == "quick" else budget * 2):
                 chosen.append(c)
                 covered |= u
     cs = set(chosen)
